@@ -6,6 +6,7 @@ import AcryoVerif.Model.Lowpass
 import AcryoVerif.Gen.Align
 import AcryoVerif.Model.Landscape
 import AcryoVerif.Model.Split
+import AcryoVerif.Model.Fsc
 
 /-! Dispatch of hand-written model operations for the line-protocol driver. -/
 namespace Model
@@ -127,6 +128,21 @@ def opSplit (a : Array Rat) : String :=
   let d := usedDraws n stream
   bits (mask0 n d) ++ " " ++ bits (mask1 n d)
 
+/-- `fscLabels n0 n1 n2 dfreq` → `nboundary | label per bin (FFT order, C order)`. -/
+def opFscLabels (a : Array Rat) : String :=
+  let d : Int × Int × Int := (i a 0, i a 1, i a 2)
+  let dfreq := a[3]!
+  Id.run do
+    let mut labs : List String := []
+    let mut nb : Nat := 0
+    for z in [0:d.1.toNat] do
+      for y in [0:d.2.1.toNat] do
+        for x in [0:d.2.2.toNat] do
+          let (L, onb) := labelSq (radius2 d ((z : Int), (y : Int), (x : Int))) dfreq 4096
+          labs := labs ++ [toString L]
+          if onb then nb := nb + 1
+    return s!"{nb} | " ++ " ".intercalate labs
+
 def dispatch (name : String) (a : Array Rat) : Option String :=
   match name with
   | "prepAffine" => some (flat (opPrepAffine a))
@@ -151,6 +167,7 @@ def dispatch (name : String) (a : Array Rat) : Option String :=
   | "landscape" => some (opLandscape a)
   | "score" => some (opScore a)
   | "split" => some (opSplit a)
+  | "fscLabels" => some (opFscLabels a)
   | _ => none
 
 end Model
